@@ -225,7 +225,7 @@ def check(ctx):
            detail="" if okv else "TaskHandle.start_value does not `return self._start_value`", by=("return self._start_value",))
     for rz_ in [n_ for n_ in own_walk(sv_f.node) if isinstance(n_, ast.Raise)]:
         fa_ = ctx.facts_at(sv_f, rz_)
-        okr = bool(fa_) and all(("@exc", "AttributeError") in x_ for x_ in fa_)
+        okr = bool(fa_) and all(("@exc", "AttributeError") in x_ or ("hasattr(self, '_start_value')", False) in x_ for x_ in fa_)      # (EAFP / LBYL)
         ctx.ob("R07-i", sv_f, "start_value refuses only when no start value was ever stored", okr, node=rz_,
                detail="" if okr else f"`{norm(rz_)}` is reachable for a task whose start value exists (a value such as None would be reported as 'not started')",
                by=("@exc=AttributeError",))
